@@ -85,6 +85,8 @@ package keyid
 //@   ensures err == nil ==> hasRequired(kidStr)
 //@   loop 1:
 //@     invariant forall(j, 0 <= j && j <= rangeindex, jsonHasKey(kidStr, requiredKeys[j]))
+//@     invariant m != nil && forall(k#string, true, (k in dom(m)) <==> jsonHasKey(kidStr, k))
+//@     invariant forall(i, 0 <= i && i < jsPrinsLen(kidStr), kid.Principals[i] == jsPrins(kidStr)[i])
 //@     invariant len(requiredKeys) == 11 && requiredKeys[0] == "prins" && requiredKeys[1] == "transID" && requiredKeys[2] == "reqUser" &&
 //@       requiredKeys[3] == "reqIP" && requiredKeys[4] == "reqHost" && requiredKeys[5] == "isFirefighter" && requiredKeys[6] == "isHWKey" &&
 //@       requiredKeys[7] == "isHeadless" && requiredKeys[8] == "isNonce" && requiredKeys[9] == "touchPolicy" && requiredKeys[10] == "ver"
